@@ -511,6 +511,19 @@ pub fn main(args: &[String]) {
             };
             cases.push(rand_adf(&mut rng, n, format!("r{}_{}", n, k)));
         }
+        // connected random frameworks of 7-10 statements, judged by the brute-force definitions (grounded, two-valued and stable
+        // models stay cheap for TLC at that size; complete models do not: C02 gets a few 7-statement ones only)
+        if tier != "feat" {
+            let c02 = props.iter().any(|p| p == "C02");
+            let nconn = match (thorough, c02) { (false, false) => 24, (false, true) => 6, (true, false) => 200, (true, true) => 40 };
+            let stride = (cases.len() / (nconn + 1)).max(1);
+            for k in 0..nconn {
+                let n = if c02 { 7 } else { rng.gen_range(7..=10) };
+                let case = rand_adf(&mut rng, n, format!("c{}_{}", n, k));
+                let at = ((k + 1) * stride + k).min(cases.len());
+                cases.insert(at, case);
+            }
+        }
         // composed frameworks of 9-16 statements (C02: 8-11, its odometer visits 3^n candidates), judged by AdfCompose
         {
             let nbig = if tier == "feat" { 12 } else { match (thorough, heavy) { (false, false) => 60, (false, true) => 30, (true, false) => 500, (true, true) => 200 } };
